@@ -18,6 +18,10 @@ Proof.
   intros (a & p' & E & H) Hf. rewrite (bind_ok _ _ _ _ _ E). apply Hf, H.
 Qed.
 
+Lemma RT_conseq {A} (r : result (A * pst)) mx (Q Q' : A -> Z -> Prop) :
+  RT r mx Q -> (forall a p', Q a p' -> Q' a p') -> RT r mx Q'.
+Proof. intros (a & p' & E & H) HQ. exists a, p'. split; [exact E | apply HQ, H]. Qed.
+
 Definition isnode (t : tree) (p' : Z) : Prop := exists tag s fs, t = Node tag s p' false fs.
 
 Lemma isnode_facts t p' : isnode t p' -> is_hidden t = false /\ is_none t = false /\ end_of t = Some p'.
@@ -94,7 +98,7 @@ End Acc.
 (* ---------------------------------------------------------------- tactics *)
 Ltac prim :=
   repeat (first [ rewrite bind_get_pos | rewrite bind_set_pos | rewrite bind_ret | rewrite bind_mk
-                | rewrite bind_get_max | rewrite bind_set_max ]; cbv beta iota zeta).
+                | rewrite bind_get_max | rewrite bind_set_max | rewrite bind_assoc ]; cbv beta iota zeta).
 
 Ltac lim_tac := first [assumption | lia].
 
@@ -120,20 +124,6 @@ Ltac fw :=
 Ltac fhd H :=
   first [ eapply hd_follow_nomatch; [|exact H]; vm_compute; reflexivity
         | eapply hd_follow_anyof; [|exact H]; vm_compute; reflexivity ].
-
-(* open the pattern matches of a grammar equation *)
-Ltac gmatch H :=
-  repeat (cbv beta iota in H;
-          match type of H with
-          | context [match ?x with _ => _ end] => is_var x; destruct x; try discriminate H
-          end);
-  cbv beta iota in H.
-
-Ltac gtag H tg :=
-  match type of H with
-  | context [?tag =? tg] =>
-      let E := fresh "Et" in destruct (tag =? tg) eqn:E; [apply Z.eqb_eq in E; try subst tag | try discriminate H]
-  end.
 
 Ltac hit :=
   lazymatch goal with
@@ -201,6 +191,12 @@ Ltac all2v_tac :=
   repeat first [ rewrite all2v_kw_l | rewrite all2v_kw_r | rewrite all2v_hid_r | rewrite all2v_hid_l
                | rewrite all2v_cons by den_side ];
   try exact all2v_nil.
+
+Ltac open_node :=
+  match goal with
+  | HC : ParserComplete2.CTX ?ts (Node ?tag ?a ?b ?sh ?fs) ?mx |- _ =>
+      is_var sh; pose proof (CTX_sh ts tag a b sh fs mx HC eq_refl); subst sh; apply CTX_node in HC; ctx_split HC
+  end.
 
 Ltac rt_call L :=
   eapply RT_bind; [ eapply L | cbv beta; intros ? ? ? ].
@@ -459,6 +455,404 @@ Lemma L_explist_none p mx : G p -> follow fstop mx (SS p) -> explist_def ts R (p
 Proof.
   intros HG Hf. unfold explist_def. prim. rewrite (bind_ok _ _ _ _ _ (c_exp_none _ _ HR p mx HG Hf)).
   cbn [is_none strip_paren]. prim. reflexivity.
+Qed.
+
+(* ---------------------------------------------------------------- things that are not there *)
+Lemma L_table_none p mx : 0 <= p -> follow (nomatch [psym "{"%bs]) mx (SS p) ->
+  tableconstructor_def ts R (p, mx) = Ok (PNone, (p, mx)).
+Proof. intros Hp Hf. unfold tableconstructor_def. prim. miss. reflexivity. Qed.
+
+Lemma L_args_none p mx : 0 <= p -> follow (nomatch args_first) mx (SS p) -> args_def ts R (p, mx) = Ok (PNone, (p, mx)).
+Proof.
+  intros Hp Hf. unfold args_def. prim. miss.
+  rewrite (bind_ok _ _ _ _ _ (L_table_none p mx Hp ltac:(fw))). cbn [is_none strip_paren negb]. miss. reflexivity.
+Qed.
+
+Lemma L_function_none p mx : 0 <= p -> follow (nomatch [pkw "function"%bs]) mx (SS p) ->
+  function_def ts R (p, mx) = Ok (PNone, (p, mx)).
+Proof. intros Hp Hf. unfold function_def. prim. miss. reflexivity. Qed.
+
+Lemma L_prefix_none p mx : 0 <= p -> follow (nomatch prefix_first) mx (SS p) -> prefixexp_def ts R (p, mx) = Ok (PNone, (p, mx)).
+Proof. intros Hp Hf. unfold prefixexp_def. prim. miss. miss. reflexivity. Qed.
+
+Lemma L_field_none p mx : G p -> follow (anyof [psym "}"%bs]) mx (SS p) -> field_def ts R (p, mx) = Ok (PNone, (p, mx)).
+Proof.
+  intros HG Hf. destruct HG as [Hp0 HGk]. unfold field_def. prim. miss. miss. prim.
+  rewrite (bind_ok _ _ _ _ _ (c_exp_none _ _ HR p mx (conj Hp0 HGk) ltac:(fw))). reflexivity.
+Qed.
+
+(* ---------------------------------------------------------------- table constructors *)
+Definition field_end : list pat := [psym ","%bs; psym ";"%bs; psym "}"%bs].
+
+Lemma L_field p mx n g s' : G p -> g_field n g (SS p) = Some s' -> CTX g mx -> follow (anyof field_end) mx s' ->
+  RT (field_def ts R (p, mx)) mx (fun t p' => SS p' = s' /\ p < p' /\ den g t = true /\ is_none t = false /\ is_hidden t = false).
+Proof.
+  intros HG Hg HC Hf. destruct HG as [Hp0 HGk]. destruct n; [discriminate|]. cbn [g_field] in Hg.
+  destruct g as [tag a b sh fs| | | | | | | |]; try discriminate. unfold field_def. prim.
+  gtag Hg tFieldExpKey.
+  { gmatch Hg. pose proof (CTX_sh ts _ _ _ _ _ _ HC eq_refl) as ->. apply CTX_node in HC. ctx_split HC.
+    osplit Hg E1. osplit Hg E2. osplit Hg E3. osplit Hg E4. tinv E1. hit.
+    pose proof (hd_sym _ _ _ _ E3) as Hh.
+    eapply RT_bind; [eapply R_exp; [gd | exact E2 | eassumption | fhd Hh]|].
+    cbv beta. intros e1 p1 (Q1 & Q2 & Q3 & Q4 & Q5). subst s0.
+    destruct (isnode_facts _ _ Q4) as (Qh & Qn & _). rewrite bind_assert by exact Qn.
+    tinv E3. hit. tinv E4. hit.
+    eapply RT_bind; [eapply R_exp; [gd | exact Hg | eassumption | fw]|].
+    cbv beta. intros e2 p2 (Q6 & Q7 & Q8 & Q9 & Q10).
+    destruct (isnode_facts _ _ Q9) as (Qh2 & Qn2 & _). rewrite bind_assert by exact Qn2.
+    rewrite mk_eq. apply RT_ok. split; [exact Q6|]. split; [lia|]. split; [|split; reflexivity]. den_side. }
+  gtag Hg tFieldNamedKey.
+  { gmatch Hg. pose proof (CTX_sh ts _ _ _ _ _ _ HC eq_refl) as ->. apply CTX_node in HC. ctx_split HC.
+    osplit Hg E1. osplit Hg E2. tinv E1. miss. hit. tinv E2. hit.
+    eapply RT_bind; [eapply R_exp; [gd | exact Hg | eassumption | fw]|].
+    cbv beta. intros e2 p2 (Q6 & Q7 & Q8 & Q9 & Q10).
+    destruct (isnode_facts _ _ Q9) as (Qh2 & Qn2 & _). rewrite bind_assert by exact Qn2.
+    rewrite mk_eq. apply RT_ok. split; [exact Q6|]. split; [lia|]. split; [|split; reflexivity]. den_side. }
+  gtag Hg tFieldExp. gmatch Hg. match type of Hg with g_exp _ ?x _ = _ => rename x into ge end.
+  pose proof (CTX_sh ts _ _ _ _ _ _ HC eq_refl) as ->. apply CTX_node in HC. ctx_split HC.
+  pose proof (g_exp_head _ _ _ _ Hg) as Hh. pose proof Hh as (hi & ht & r0 & Hs & Ha).
+  assert (Hf1 : follow (nomatch [psym "["%bs]) mx (SS p)) by (fhd Hh). miss.
+  assert (Hrest : RT ((_ <- set_pos p;; e <- r_exp R;; (if is_none e then ret e else mk tFieldExp p [e])) (p, mx)) mx
+            (fun t1 p' => SS p' = s' /\ p < p' /\ den (Node tFieldExp a b false [ge]) t1 = true /\ is_none t1 = false /\ is_hidden t1 = false)).
+  { prim. eapply RT_bind; [eapply R_exp; [split; lia | exact Hg | eassumption | fw]|].
+    cbv beta. intros e2 p2 (Q6 & Q7 & Q8 & Q9 & Q10).
+    destruct (isnode_facts _ _ Q9) as (Qh2 & Qn2 & _). rewrite Qn2.
+    rewrite mk_eq. apply RT_ok. split; [exact Q6|]. split; [lia|]. split; [|split; reflexivity]. den_side. }
+  destruct (kmatch (kd ht) (PClass CName)) eqn:Ek.
+  - destruct (spos ts p hi ht r0 Hp0 Hs) as (Hle & Hlt & Hn). rewrite Hs in Hg.
+    assert (Hil : hi < lim mx).
+    { destruct HC0 as (_ & _ & _ & Hfen). apply Hfen. eapply name_exp_leaf; eassumption. }
+    hit. assert (Hf2 : follow (nomatch [psym "="%bs]) mx (SS (hi + 1))).
+    { rewrite Hn. eapply name_exp_second; eassumption. }
+    miss. rewrite <- Hs in Hg. exact Hrest.
+  - assert (Hf2 : follow (fun k0 => negb (kmatch k0 (PClass CName))) mx (SS p)).
+    { rewrite Hs. apply follow_head. rewrite Ek. reflexivity. }
+    miss. prim. exact Hrest.
+Qed.
+
+Lemma ftail_follow n r s1 s' mx : g_ftail n r s1 = Some s' -> follow (anyof [psym "}"%bs]) mx s' -> follow (anyof field_end) mx s1.
+Proof.
+  intros H Hf. destruct r as [|c r']; cbn [g_ftail] in H.
+  - injection H as <-. fw.
+  - apply obind_some in H. destruct H as (s2 & H & _). destruct (sym ","%bs c s1) eqn:E.
+    + pose proof (hd_sym _ _ _ _ E) as Hh. fhd Hh.
+    + pose proof (hd_sym _ _ _ _ H) as Hh. fhd Hh.
+Qed.
+
+Lemma g_fields_unfold n l s :
+  g_fields (S n) l s = match l with [] => Some s | f :: r => s <~ g_field n f s ;; g_ftail n r s end.
+Proof. reflexivity. Qed.
+
+Lemma L_fields_loop : fields_loop_ok G' (fields_loop_def ts R).
+Proof.
+  intros p mx n l s' HG Hg HC Hf. destruct HG as [Hp0 HGk].
+  destruct l as [|c r']; cbn [g_ftail] in Hg.
+  - unfold fields_loop_def. injection Hg as <-. miss. miss. rewrite ret_eq. apply RT_ok. repeat split; first [lia | reflexivity].
+  - osplit Hg E. apply CTXL_cons in HC. destruct HC as [HC1 HC].
+    assert (Hsep : exists i t, c = Kw i /\ SS p = (i, t) :: s /\
+              fields_loop_def ts R (p, mx) =
+              (f <- field_def ts R;; (if is_none f then ret [Kw i; Hid f] else r <- r_fields_loop R;; ret (Kw i :: f :: r))) (i + 1, mx)).
+    { unfold fields_loop_def. destruct (sym ","%bs c (SS p)) eqn:E1.
+      - injection E as <-. tinv E1. exists i, t. split; [reflexivity|]. split; [assumption|].
+        hit. prim. reflexivity.
+      - tinv E. exists i, t. split; [reflexivity|]. split; [assumption|].
+        miss. hit. reflexivity. }
+    destruct Hsep as (i & t & -> & Hs & ->). destruct (spos ts p i t s Hp0 Hs) as (Hle & Hlt & Hn). subst s.
+    destruct n; [discriminate|]. rewrite g_fields_unfold in Hg. destruct r' as [|f r''].
+    + injection Hg as <-. rewrite (bind_ok _ _ _ _ _ (L_field_none (i + 1) mx ltac:(gd) Hf)).
+      cbn [is_none strip_paren]. rewrite ret_eq. apply RT_ok. split; [reflexivity|]. split; [lia|]. reflexivity.
+    + osplit Hg E2. apply CTXL_cons in HC. destruct HC as [HC2 HC].
+      eapply RT_bind; [eapply L_field; [gd | exact E2 | exact HC2 | eapply ftail_follow; eassumption]|].
+      cbv beta. intros f1 p1 (Q1 & Q2 & Q3 & Q4 & Q5). subst s. rewrite Q4.
+      eapply RT_bind; [eapply (c_fields_loop _ _ HR); [gd | exact Hg | exact HC | exact Hf]|].
+      cbv beta. intros tl p' (Q6 & Q7 & Q8). rewrite ret_eq. apply RT_ok. split; [exact Q6|]. split; [lia|].
+      all2v_tac. exact Q8.
+Qed.
+
+Lemma L_table p mx n g s' : G' p -> g_table n g (SS p) = Some s' -> CTX g mx ->
+  RT (tableconstructor_def ts R (p, mx)) mx (fun t p' => SS p' = s' /\ p < p' /\ den g t = true /\ is_none t = false /\ is_hidden t = false).
+Proof.
+  intros HG Hg HC. destruct HG as [Hp0 HGk]. destruct n; [discriminate|]. cbn [g_table] in Hg.
+  destruct g as [tag a b sh fs| | | | | | | |]; try discriminate. gmatch Hg. gtag Hg tTableConstructor.
+  pose proof (CTX_sh ts _ _ _ _ _ _ HC eq_refl) as ->. apply CTX_node in HC. ctx_split HC. apply CTX_lst in HC1.
+  osplit Hg E1. osplit Hg E2. tinv E1. unfold tableconstructor_def. prim. hit.
+  pose proof (hd_sym _ _ _ _ Hg) as Hh.
+  assert (Hfe : follow (anyof [psym "}"%bs]) mx s0) by (fhd Hh).
+  destruct n; [discriminate|]. rewrite g_fields_unfold in E2. destruct l as [|f r].
+  - injection E2 as <-. rewrite (bind_ok _ _ _ _ _ (L_field_none (i + 1) mx ltac:(gd) Hfe)).
+    eapply RT_bind; [eapply (L_fields_loop (i + 1) mx n []); [gd | reflexivity | constructor | exact Hfe]|].
+    cbv beta. intros tl p1 (Q1 & Q2 & Q3). rewrite <- Q1 in Hg. tinv Hg. hit. rewrite mk_eq. apply RT_ok.
+    split; [reflexivity|]. split; [lia|]. split; [|split; reflexivity]. cbn [is_none strip_paren app]. den_side.
+  - osplit E2 E3. apply CTXL_cons in HC1. destruct HC1 as [HCf HCr].
+    eapply RT_bind; [eapply L_field; [gd | exact E3 | exact HCf | eapply ftail_follow; eassumption]|].
+    cbv beta. intros f1 p1 (Q1 & Q2 & Q3 & Q4 & Q5). subst s.
+    eapply RT_bind; [eapply L_fields_loop; [gd | exact E2 | exact HCr | exact Hfe]|].
+    cbv beta. intros tl p2 (Q6 & Q7 & Q8). subst s0. tinv Hg. hit. rewrite mk_eq. apply RT_ok.
+    split; [reflexivity|]. split; [lia|]. split; [|split; reflexivity]. rewrite Q4. cbn [app]. den_side.
+Qed.
+
+(* ---------------------------------------------------------------- arguments *)
+Lemma args_paren_inv n a b sh o el c s s' :
+  g_args (S n) (Node tFunctionArgs a b sh [o; el; c]) s = Some s' ->
+  (el = PNone /\ (s <~ sym "("%bs o s ;; sym ")"%bs c s) = Some s') \/
+  (el <> PNone /\ (s <~ sym "("%bs o s ;; s <~ g_explist n el s ;; sym ")"%bs c s) = Some s').
+Proof.
+  cbn [g_args]. change (tFunctionArgs =? tFunctionArgs) with true. cbv beta iota.
+  destruct el; intros H; first [left; split; [reflexivity | exact H] | right; split; [discriminate | exact H]].
+Qed.
+
+Lemma L_args p mx n g s' : G' p -> g_args n g (SS p) = Some s' -> CTX g mx ->
+  RT (args_def ts R (p, mx)) mx (fun t p' => SS p' = s' /\ p < p' /\ den g t = true /\ is_none t = false /\ is_hidden t = false).
+Proof.
+  intros HG Hg HC. destruct HG as [Hp0 HGk]. destruct n; [discriminate|]. unfold args_def. prim.
+  destruct g as [tag a b sh fs|i0 t0| | | | | | |]; try discriminate.
+  - cbn [g_args] in Hg. gtag Hg tFunctionArgs.
+    + pose proof (CTX_sh ts _ _ _ _ _ _ HC eq_refl) as ->. apply CTX_node in HC.
+      destruct fs as [|o [|el [|c [|? ?]]]]; try discriminate; try (exfalso; gmatch Hg; fail).
+      ctx_split HC. change (g_args (S n) (Node tFunctionArgs a b false [o; el; c]) (SS p) = Some s') in Hg.
+      apply args_paren_inv in Hg. destruct Hg as [[-> Hg]|[Hne Hg]].
+      * osplit Hg E1. tinv E1. hit. pose proof (hd_sym _ _ _ _ Hg) as Hh.
+        rewrite (bind_ok _ _ _ _ _ (L_explist_none (i + 1) mx ltac:(gd) ltac:(fhd Hh))).
+        tinv Hg. hit. rewrite mk_eq. apply RT_ok. split; [reflexivity|]. split; [lia|]. split; [|split; reflexivity]. den_side.
+      * osplit Hg E1. osplit Hg E2. tinv E1. hit. pose proof (hd_sym _ _ _ _ Hg) as Hh.
+        eapply RT_bind; [eapply L_explist; [gd | exact E2 | eassumption | fhd Hh]|].
+        cbv beta. intros el1 p1 (Q1 & Q2 & Q3 & Q4 & Q5). subst s0. tinv Hg. hit. rewrite mk_eq. apply RT_ok.
+        split; [reflexivity|]. split; [lia|]. split; [|split; reflexivity]. den_side.
+    + gtag Hg tTableConstructor. change (g_table n (Node tTableConstructor a b sh fs) (SS p) = Some s') in Hg.
+      pose proof (g_table_head _ _ _ _ Hg) as Hh. assert (Hf1 : follow (nomatch [psym "("%bs]) mx (SS p)) by (fhd Hh). miss.
+      eapply RT_bind; [eapply L_table; [split; assumption | exact Hg | exact HC]|].
+      cbv beta. intros t1 p1 (Q1 & Q2 & Q3 & Q4 & Q5). rewrite Q4. cbn [negb]. rewrite ret_eq. apply RT_ok.
+      repeat split; assumption.
+  - cbn [g_args] in Hg. tinv Hg. miss. rewrite (bind_ok _ _ _ _ _ (L_table_none p mx Hp0 ltac:(fw))).
+    cbn [is_none strip_paren negb]. hit. rewrite ret_eq. apply RT_ok. cbn [opt_tok].
+    split; [reflexivity|]. split; [lia|]. split; [apply den_tok|]. split; reflexivity.
+Qed.
+
+(* ---------------------------------------------------------------- function bodies *)
+Lemma L_namelist_none p mx : 0 <= p -> follow (nomatch [PClass CName]) mx (SS p) -> namelist_def ts R (p, mx) = Ok (PNone, (p, mx)).
+Proof. intros Hp Hf. unfold namelist_def. prim. miss. reflexivity. Qed.
+
+Lemma nl_stop_hd ps mx s : forallb (fun q => pdisj q (psym ","%bs)) ps = true -> hd_in ps s -> nl_stop mx s.
+Proof.
+  intros Hd (i & t & r & -> & Ha). unfold nl_stop, peek. destruct (fence_ok mx i); [|exact I].
+  rewrite (anyof_miss ps _ _ Hd Ha). exact I.
+Qed.
+
+Definition g_dots (d : tree) (s : stream) : option stream :=
+  match d with
+  | Node t2 _ _ _ [k] => if t2 =? tVarargDots then sym "..."%bs k s else None
+  | _ => None
+  end.
+
+Lemma funcbody_inv n a b sh o r s s' : g_funcbody (S n) (Node tFunctionBody a b sh (o :: r)) s = Some s' ->
+  exists s1, sym "("%bs o s = Some s1 /\
+  exists nl dd c bd e tl, r = nl :: tl ++ [c; bd; e] /\
+    ((nl = PNone /\ tl = [PNone] /\ dd = PNone /\ (s <~ sym ")"%bs c s1 ;; s <~ g_chunk n bd s ;; kw "end"%bs e s) = Some s') \/
+     (nl = PNone /\ tl = [dd] /\ dd <> PNone /\ (s <~ g_dots dd s1 ;; s <~ sym ")"%bs c s ;; s <~ g_chunk n bd s ;; kw "end"%bs e s) = Some s') \/
+     (nl <> PNone /\ tl = [PNone] /\ dd = PNone /\ (s <~ namelist nl s1 ;; s <~ sym ")"%bs c s ;; s <~ g_chunk n bd s ;; kw "end"%bs e s) = Some s') \/
+     (nl <> PNone /\ (exists cm, tl = [cm; dd]) /\
+       exists cm, tl = [cm; dd] /\ (s <~ namelist nl s1 ;; s <~ sym ","%bs cm s ;; s <~ g_dots dd s ;; s <~ sym ")"%bs c s ;; s <~ g_chunk n bd s ;; kw "end"%bs e s) = Some s')).
+Proof.
+  cbn [g_funcbody]. change (tFunctionBody =? tFunctionBody) with true. cbv beta iota zeta. intros H.
+  apply obind_some in H. destruct H as (s1 & E & H). exists s1. split; [exact E|].
+  destruct r as [|nl r]; [discriminate H|].
+  destruct r as [|x2 r]; [destruct nl; cbv beta iota in H; discriminate H|].
+  destruct r as [|x3 r]; [destruct nl, x2; cbv beta iota in H; discriminate H|].
+  destruct r as [|x4 r]; [destruct nl, x2; cbv beta iota in H; discriminate H|].
+  destruct r as [|x5 r]; [destruct nl, x2; cbv beta iota in H; discriminate H|].
+  destruct r as [|x6 r].
+  - (* five fields *)
+    exists nl, x2, x3, x4, x5, [x2]. split; [reflexivity|].
+    destruct nl, x2; cbv beta iota in H; try discriminate H;
+      first [ left; repeat split; exact H
+            | right; left; repeat split; first [discriminate | exact H]
+            | right; right; left; repeat split; first [discriminate | exact H] ].
+  - destruct r as [|? ?]; [|destruct nl, x2; cbv beta iota in H; discriminate H].
+    exists nl, x3, x4, x5, x6, [x2; x3]. split; [reflexivity|].
+    right; right; right. split; [destruct nl; cbv beta iota in H; try discriminate; try discriminate H;
+                                   exfalso; destruct x2; cbn [namelist obind] in H; discriminate H|].
+    split; [eexists; reflexivity|]. exists x2. split; [reflexivity|].
+    destruct nl, x2; cbv beta iota in H; first [exact H | cbn [namelist obind] in H; discriminate H].
+Qed.
+
+Lemma funcbody_tail pos oi nl dots p1 mx n c bd e s' :
+  G p1 -> (s <~ sym ")"%bs c (SS p1) ;; s <~ g_chunk n bd s ;; kw "end"%bs e s) = Some s' ->
+  CTX c mx -> CTX bd mx -> CTX e mx ->
+  RT ((fun dots => '(ci, _) <- expect ts (psym ")"%bs) ;; b <- r_chunk R ;; b <- assert_node b ;;
+                   '(ei, _) <- expect ts (pkw "end"%bs) ;;
+                   mk tFunctionBody pos ([Kw oi; nl] ++ dots ++ [Kw ci; b; Kw ei])) dots (p1, mx)) mx
+     (fun t p' => SS p' = s' /\ p1 < p' /\
+        exists ci b1 ei, t = Node tFunctionBody pos p' false ([Kw oi; nl] ++ dots ++ [Kw ci; b1; Kw ei]) /\
+                         den bd b1 = true /\ is_hidden b1 = false /\ c = Kw ci /\ e = Kw ei).
+Proof.
+  intros HG Hg HC1 HC2 HC3. destruct HG as [Hp0 HGk]. cbv beta.
+  osplit Hg E1. osplit Hg E2. tinv E1. hit. pose proof (hd_kw _ _ _ _ Hg) as Hh.
+  eapply RT_bind; [eapply (c_chunk _ _ HR); [gd | exact E2 | eassumption | fhd Hh]|].
+  cbv beta. intros b1 p2 (Q1 & Q2 & Q3 & fs & ->). subst s0. rewrite bind_assert by reflexivity.
+  tinv Hg. hit. rewrite mk_eq. apply RT_ok. split; [reflexivity|]. split; [lia|].
+  eexists _, _, _. split; [reflexivity|]. split; [exact Q3|]. repeat split.
+Qed.
+
+Lemma L_funcbody p mx n g s' : G' p -> g_funcbody n g (SS p) = Some s' -> CTX g mx ->
+  RT (funcbody_def ts R (p, mx)) mx (fun t p' => SS p' = s' /\ p < p' /\ den g t = true /\ is_none t = false /\ is_hidden t = false).
+Proof.
+  intros HG Hg HC. destruct HG as [Hp0 HGk]. destruct n; [discriminate|].
+  destruct g as [tag a b sh fs| | | | | | | |]; try discriminate. destruct fs as [|o r]; [discriminate|].
+  assert (Ht : tag = tFunctionBody).
+  { cbn [g_funcbody] in Hg. destruct (tag =? tFunctionBody) eqn:E; [apply Z.eqb_eq in E; exact E | discriminate]. }
+  subst tag. pose proof (CTX_sh ts _ _ _ _ _ _ HC eq_refl) as ->. apply CTX_node in HC.
+  apply funcbody_inv in Hg. destruct Hg as (s1 & E0 & nl & dd & c & bd & e & tl & -> & Hcases).
+  apply CTXL_cons in HC. destruct HC as [HCo HC]. apply CTXL_cons in HC. destruct HC as [HCnl HC].
+  apply CTXL_app in HC. destruct HC as [HCtl HC]. ctx_split HC.
+  tinv E0. unfold funcbody_def. prim. hit.
+  destruct Hcases as [(-> & -> & -> & Hg)|[(-> & -> & Hdd & Hg)|[(Hnl & -> & -> & Hg)|(Hnl & _ & cm & -> & Hg)]]].
+  - pose proof Hg as Hg'. osplit Hg' E1. pose proof (hd_sym _ _ _ _ E1) as Hh.
+    rewrite (bind_ok _ _ _ _ _ (L_namelist_none (i + 1) mx ltac:(lia) ltac:(fhd Hh))).
+    cbn [is_none strip_paren negb]. prim. assert (Hf1 : follow (nomatch [psym "..."%bs]) mx (SS (i + 1))) by (fhd Hh).
+    miss. prim.
+    eapply RT_conseq; [eapply (funcbody_tail p i PNone [PNone]); [gd | exact Hg | eassumption | eassumption | eassumption]|].
+    cbv beta. intros tr p' (Q1 & Q2 & ci & b1 & ei & -> & Q3 & Q4 & -> & ->).
+    split; [exact Q1|]. split; [lia|]. split; [|split; reflexivity]. cbn [app]. den_side.
+  - osplit Hg E1. unfold g_dots in E1. destruct dd as [t2 da db dsh dfs| | | | | | | |]; try discriminate.
+    gmatch E1. gtag E1 tVarargDots. ctx_split HCtl. open_node.
+    pose proof (hd_sym _ _ _ _ E1) as Hh.
+    rewrite (bind_ok _ _ _ _ _ (L_namelist_none (i + 1) mx ltac:(lia) ltac:(fhd Hh))).
+    cbn [is_none strip_paren negb]. prim. tinv E1. hit. prim.
+    eapply RT_conseq; [eapply (funcbody_tail p i PNone [Node tVarargDots (i + 1) (i0 + 1) false [Kw i0]]); [gd | exact Hg | eassumption | eassumption | eassumption]|].
+    cbv beta. intros tr p' (Q1 & Q2 & ci & b1 & ei & -> & Q3 & Q4 & -> & ->).
+    split; [exact Q1|]. split; [lia|]. split; [|split; reflexivity]. cbn [app]. den_side.
+  - osplit Hg E1. pose proof Hg as Hg'. osplit Hg' E2. pose proof (hd_sym _ _ _ _ E2) as Hh.
+    eapply RT_bind; [eapply L_namelist; [gd | exact E1 | exact HCnl | eapply nl_stop_hd; [|exact Hh]; reflexivity]|].
+    cbv beta. intros nl1 p1 (Q1 & Q2 & Q3 & Q4 & Q5). subst s. rewrite Q4. cbn [negb]. prim.
+    assert (Hf1 : follow (nomatch [psym ","%bs]) mx (SS p1)) by (fhd Hh). miss. prim.
+    eapply RT_conseq; [eapply (funcbody_tail p i nl1 [PNone]); [gd | exact Hg | eassumption | eassumption | eassumption]|].
+    cbv beta. intros tr p' (Q6 & Q7 & ci & b1 & ei & -> & Q8 & Q9 & -> & ->).
+    split; [exact Q6|]. split; [lia|]. split; [|split; reflexivity]. cbn [app]. den_side.
+  - osplit Hg E1. osplit Hg E2. osplit Hg E3.
+    unfold g_dots in E3. destruct dd as [t2 da db dsh dfs| | | | | | | |]; try discriminate.
+    gmatch E3. gtag E3 tVarargDots. ctx_split HCtl. open_node.
+    assert (Hnls : nl_stop mx s).
+    { apply sym_inv in E2. destruct E2 as (j & u & _ & -> & Hku). unfold nl_stop, peek. destruct (fence_ok mx j); [|exact I].
+      rewrite Hku. pose proof (hd_sym _ _ _ _ E3) as Hh. fhd Hh. }
+    eapply RT_bind; [eapply L_namelist; [gd | exact E1 | exact HCnl | exact Hnls]|].
+    cbv beta. intros nl1 p1 (Q1 & Q2 & Q3 & Q4 & Q5). subst s. rewrite Q4. cbn [negb]. prim.
+    tinv E2. hit. prim. tinv E3. hit. prim.
+    eapply RT_conseq; [eapply (funcbody_tail p i nl1 [Kw i0; Node tVarargDots (i0 + 1) (i1 + 1) false [Kw i1]]); [gd | exact Hg | eassumption | eassumption | eassumption]|].
+    cbv beta. intros tr p' (Q6 & Q7 & ci & b1 & ei & -> & Q8 & Q9 & -> & ->).
+    split; [exact Q6|]. split; [lia|]. split; [|split; reflexivity]. cbn [app]. den_side.
+Qed.
+
+Lemma L_function p mx n a b sh f body s' : G' p ->
+  (s <~ kw "function"%bs f (SS p) ;; g_funcbody n body s) = Some s' -> CTX (Node tFunction a b sh [f; body]) mx ->
+  RT (function_def ts R (p, mx)) mx (fun t p' => SS p' = s' /\ p < p' /\ den (Node tFunction a b sh [f; body]) t = true /\
+                                                 is_none t = false /\ is_hidden t = false).
+Proof.
+  intros HG Hg HC. destruct HG as [Hp0 HGk]. pose proof (CTX_sh ts _ _ _ _ _ _ HC eq_refl) as ->.
+  apply CTX_node in HC. ctx_split HC. osplit Hg E1. tinv E1. unfold function_def. prim. hit.
+  eapply RT_bind; [eapply L_funcbody; [gd | exact Hg | eassumption]|].
+  cbv beta. intros b1 p1 (Q1 & Q2 & Q3 & Q4 & Q5). rewrite bind_assert by exact Q4.
+  rewrite mk_eq. apply RT_ok. split; [exact Q1|]. split; [lia|]. split; [|split; reflexivity]. den_side.
+Qed.
+
+(* ---------------------------------------------------------------- prefix expressions *)
+Lemma den_wrap1 tag a b rest gfirst first s e tfs :
+  (tag =? tChain) = false -> den gfirst first = true -> is_hidden first = false -> all2v rest tfs = true ->
+  den (wrap1 (tag, a, b, false, rest) gfirst) (Node tag s e false (first :: tfs)) = true.
+Proof.
+  intros Ht Hd Hh Hr. cbn [wrap1]. rewrite den_node by exact Ht. rewrite all2v_cons by assumption. exact Hr.
+Qed.
+
+Lemma L_precur : precur_ok G' (precur_def ts R).
+Proof.
+  intros l first gfirst p mx s' HG Hg HS Hf Hd Hh Hn. destruct HG as [Hp0 HGk]. unfold precur_def. prim.
+  destruct l as [|[n [[[[tag a] b] sh] rest]] r]; cbn [g_sufs] in Hg.
+  - injection Hg as <-. miss. miss. rewrite (bind_ok _ _ _ _ _ (L_args_none p mx Hp0 ltac:(fw))).
+    cbn [is_none strip_paren negb]. miss. rewrite ret_eq. apply RT_ok.
+    split; [reflexivity|]. split; [lia|]. split; [exact Hd|]. split; [reflexivity|]. split; assumption.
+  - osplit Hg E. apply Forall_cons_iff in HS. destruct HS as [HS0 HS']. unfold sfx_ok in HS0. cbv beta iota in HS0.
+    destruct HS0 as [HCr ->]. unfold g_suf in E.
+    gtag E tVarIndex.
+    { gmatch E. ctx_split HCr. osplit E E1. osplit E E2. tinv E1. hit. pose proof (hd_sym _ _ _ _ E) as Hhd.
+      eapply RT_bind; [eapply R_exp; [gd | exact E2 | eassumption | fhd Hhd]|].
+      cbv beta. intros e1 p1 (Q1 & Q2 & Q3 & Q4 & Q5). subst s1.
+      destruct (isnode_facts _ _ Q4) as (Qh & Qn & _). rewrite bind_assert by exact Qn. tinv E. hit. prim.
+      match goal with |- context [wraps gfirst ((_, ?x) :: r)] =>
+        eapply RT_conseq; [eapply (c_precur _ _ HR r _ (wrap1 x gfirst)); [gd | exact Hg | exact HS' | exact Hf | | reflexivity | reflexivity]|] end.
+      - apply den_wrap1; [reflexivity | assumption | assumption | all2v_go].
+      - cbv beta. intros tr p' (Q6 & Q7 & Q8 & Q9 & Q10 & Q11). split; [exact Q6|]. split; [lia|].
+        split; [exact Q8|]. split; [discriminate|]. split; assumption. }
+    gtag E tVarAttribute.
+    { gmatch E. ctx_split HCr. osplit E E1. tinv E1. miss. hit. tinv E. hit. prim.
+      match goal with |- context [wraps gfirst ((_, ?x) :: r)] =>
+        eapply RT_conseq; [eapply (c_precur _ _ HR r _ (wrap1 x gfirst)); [gd | exact Hg | exact HS' | exact Hf | | reflexivity | reflexivity]|] end.
+      - apply den_wrap1; [reflexivity | assumption | assumption | all2v_go].
+      - cbv beta. intros tr p' (Q6 & Q7 & Q8 & Q9 & Q10 & Q11). split; [exact Q6|]. split; [lia|].
+        split; [exact Q8|]. split; [discriminate|]. split; assumption. }
+    gtag E tFunctionCall.
+    { gmatch E. ctx_split HCr. pose proof (g_args_head _ _ _ _ E) as Hhd.
+      assert (Hf1 : follow (nomatch [psym "["%bs; psym "."%bs]) mx (SS p)) by (fhd Hhd). miss. miss.
+      eapply RT_bind; [eapply L_args; [split; assumption | exact E | eassumption]|].
+      cbv beta. intros a1 p1 (Q1 & Q2 & Q3 & Q4 & Q5). subst s. rewrite Q4. cbn [negb]. prim.
+      match goal with |- context [wraps gfirst ((_, ?x) :: r)] =>
+        eapply RT_conseq; [eapply (c_precur _ _ HR r _ (wrap1 x gfirst)); [gd | exact Hg | exact HS' | exact Hf | | reflexivity | reflexivity]|] end.
+      - apply den_wrap1; [reflexivity | assumption | assumption | all2v_go].
+      - cbv beta. intros tr p' (Q6 & Q7 & Q8 & Q9 & Q10 & Q11). split; [exact Q6|]. split; [lia|].
+        split; [exact Q8|]. split; [discriminate|]. split; assumption. }
+    gtag E tFunctionCallMethod. gmatch E. ctx_split HCr. osplit E E1. osplit E E2. tinv E1. miss. miss.
+    rewrite (bind_ok _ _ _ _ _ (L_args_none p mx Hp0 ltac:(fw))). cbn [is_none strip_paren negb]. hit. tinv E2. hit.
+    eapply RT_bind; [eapply L_args; [gd | exact E | eassumption]|].
+    cbv beta. intros a1 p1 (Q1 & Q2 & Q3 & Q4 & Q5). subst s. rewrite bind_assert by exact Q4. prim.
+    match goal with |- context [wraps gfirst ((_, ?x) :: r)] =>
+        eapply RT_conseq; [eapply (c_precur _ _ HR r _ (wrap1 x gfirst)); [gd | exact Hg | exact HS' | exact Hf | | reflexivity | reflexivity]|] end.
+    + apply den_wrap1; [reflexivity | assumption | assumption | all2v_go].
+    + cbv beta. intros tr p' (Q6 & Q7 & Q8 & Q9 & Q10 & Q11). split; [exact Q6|]. split; [lia|].
+      split; [exact Q8|]. split; [discriminate|]. split; assumption.
+Qed.
+
+Lemma g_suf_tag n x s s' : g_suf n x s = Some s' -> (sfx_tag (n, x) =? tStatIf) = false.
+Proof.
+  destruct x as [[[[tag a] b] sh] rest]. unfold g_suf, sfx_tag.
+  destruct (tag =? tVarIndex) eqn:E1; [apply Z.eqb_eq in E1; subst; reflexivity|].
+  destruct (tag =? tVarAttribute) eqn:E2; [apply Z.eqb_eq in E2; subst; reflexivity|].
+  destruct (tag =? tFunctionCall) eqn:E3; [apply Z.eqb_eq in E3; subst; reflexivity|].
+  destruct (tag =? tFunctionCallMethod) eqn:E4; [apply Z.eqb_eq in E4; subst; reflexivity | discriminate].
+Qed.
+
+Lemma CTX_wraps_ok mx : forall l base s0 s', CTX (wraps base l) mx -> g_sufs l s0 = Some s' ->
+  CTX base mx /\ Forall (sfx_ok ts mx) l.
+Proof.
+  induction l as [|[n [[[[tag a] b] sh] rest]] l IH]; intros base s0 s' HC Hg; cbn [wraps g_sufs] in *.
+  - split; [exact HC | constructor].
+  - apply obind_some in Hg. destruct Hg as (s1 & E & Hg). destruct (IH _ _ _ HC Hg) as [HC1 HF].
+    cbn [wrap1] in HC1. pose proof (g_suf_tag _ _ _ _ E) as Ht. cbn [sfx_tag] in Ht.
+    pose proof (CTX_sh ts _ _ _ _ _ _ HC1 Ht) as ->. apply CTX_node in HC1. apply CTXL_cons in HC1.
+    destruct HC1 as [HCb HCr]. split; [exact HCb|]. constructor; [split; [exact HCr | reflexivity] | exact HF].
+Qed.
+
+Lemma L_prefixexp p mx n g s' : G' p -> g_prefix n g (SS p) = Some s' -> CTX g mx -> follow fcont mx s' ->
+  RT (prefixexp_def ts R (p, mx)) mx (fun t p' => SS p' = s' /\ p < p' /\ den g t = true /\ is_hidden t = false /\ is_none t = false).
+Proof.
+  intros HG Hg HC Hf. destruct HG as [Hp0 HGk]. apply spine in Hg. destruct Hg as (nb & base & l & s0 & -> & Hb & Hl).
+  destruct (CTX_wraps_ok mx _ _ _ _ HC Hl) as [HCb HS]. unfold prefixexp_def. prim. unfold g_base in Hb.
+  destruct base as [tag a b sh fs| | | | | | |oi oj x|]; try discriminate.
+  - gmatch Hb. gtag Hb tVarName. open_node. tinv Hb. hit. prim.
+    match goal with |- context [wraps ?gb l] =>
+      eapply RT_conseq; [eapply (L_precur l _ gb); [gd | exact Hl | exact HS | exact Hf | | reflexivity | reflexivity]|] end.
+    + den_side.
+    + cbv beta. intros tr p' (Q6 & Q7 & Q8 & Q9 & Q10 & Q11). split; [exact Q6|]. split; [lia|].
+      split; [exact Q8|]. split; assumption.
+  - apply CTX_paren in HCb. destruct HCb as (HCx & Hl1 & Hl2). osplit Hb E1. osplit Hb E2.
+    apply eat_sym_inv in E1. destruct E1 as (t & Hs & Hk). destruct (spos ts p oi t s Hp0 Hs) as (Hle & Hlt & Hn). subst s.
+    pose proof (follow_known ts _ mx _ _ _ _ Hs Hk) as Hf0. miss. hit.
+    pose proof (hd_eat_sym _ _ _ _ Hb) as Hhd.
+    eapply RT_bind; [eapply R_exp; [gd | exact E2 | exact HCx | fhd Hhd]|].
+    cbv beta. intros e1 p1 (Q1 & Q2 & Q3 & Q4 & Q5). subst s1.
+    apply eat_sym_inv in Hb. destruct Hb as (t2 & Hs2 & Hk2). destruct (spos ts p1 oj t2 s0 ltac:(lia) Hs2) as (Hle2 & Hlt2 & Hn2). subst s0.
+    hit. destruct (isnode_facts _ _ Q4) as (Qh & Qn & _).
+    eapply RT_conseq; [eapply (L_precur l _ (Paren oi oj x)); [gd | exact Hl | exact HS | exact Hf | | reflexivity | exact Qn]|].
+    + exact Q3.
+    + cbv beta. intros tr p' (Q6 & Q7 & Q8 & Q9 & Q10 & Q11). split; [exact Q6|]. split; [lia|].
+      split; [exact Q8|]. split; assumption.
 Qed.
 
 End Step.
